@@ -257,9 +257,14 @@ structure ExcCore (cfg : Cfg) (e : Exn) (m : St) (el : Nat) (tr : List (Req × A
 /-- a granted token has been reported -/
 def GrantInv (cfg : Cfg) (m : St) : Prop := m.granted = true → cfg.metric = true → m.retryEv = true
 
+/-- if the exception is an abort, the log shows the abort, and no other stop reason is recorded -/
+def AbortOK (cfg : Cfg) (e : Exn) (w : World) : Prop :=
+  e.isAbort = true →
+    (cur cfg w.trace).sawAbort = true ∧ (w.rs.lastStop = none ∨ w.rs.lastStop = some .aborted)
+
 /-- … unless an attempt hook raised -/
 def Exc (cfg : Cfg) (e : Exn) (w : World) : Prop :=
-  flt w.trace = false → ExcCore cfg e (cur cfg w.trace) (clk w.trace).el w.trace
+  flt w.trace = false → ExcCore cfg e (cur cfg w.trace) (clk w.trace).el w.trace ∧ AbortOK cfg e w
 
 theorem raisedBy_append (p : Req → Bool) (δ t : List (Req × Ans)) (e : Exn) :
     raisedBy p (δ ++ t) e = (raisedBy p δ e || raisedBy p t e) := by
@@ -279,8 +284,11 @@ theorem raisedBy_any_of (p : Req → Bool) (t : List (Req × Ans)) (e : Exn) (h 
 theorem exc_of_fe (cfg : Cfg) (bx : Bool) {e : Exn} {w w' : World} (h : FootE (loopRx bx) e w w')
     (hx : bx = true → (view cfg w).mon.refused = true)
     (hb : (view cfg w).mon.bad = false) (hg : GrantInv cfg (view cfg w).mon)
-    (hm : (view cfg w).mon.mustOp = false ∨
-          ∀ r d rest, w'.trace = (r, Ans.raise e d) :: rest → isAttemptHook r = true) :
+    (hm : (∀ r d rest, w'.trace = (r, Ans.raise e d) :: rest → isAttemptHook r = true) ∨
+          ((view cfg w).mon.mustOp = false ∧
+           (e.isAbort = false ∨
+            (((view cfg w).stop = none ∨ (view cfg w).stop = some .aborted) ∧
+             ∀ r d rest, w'.trace = (r, Ans.raise e d) :: rest → abortKind r = true)))) :
     Exc cfg e w' := by
   obtain ⟨δ, et, _, r, d, δ', hd, hr, q⟩ := h.trace
   subst hd
@@ -293,29 +301,69 @@ theorem exc_of_fe (cfg : Cfg) (bx : Bool) {e : Exn} {w w' : World} (h : FootE (l
     exact step_inert' cfg bx _ (r, Ans.raise e d) _ hr hx
   have hrb : raisedBy nonOp w'.trace e = true := by
     rw [et]; exact raisedBy_head _ _ _ _ _ (by simp [nonOp, loopR_not_op bx r hr])
-  have hmust : (cur cfg w.trace).mustOp = false := by
-    rcases hm with hm | hm
-    · exact hm
+  have hm' : (cur cfg w.trace).mustOp = false ∧
+      (e.isAbort = false ∨
+        (((view cfg w).stop = none ∨ (view cfg w).stop = some .aborted) ∧ abortKind r = true)) := by
+    rcases hm with hm | ⟨hm1, hm2⟩
     · have := hm r d (δ' ++ w.trace) (by simpa using et)
       rw [et] at hf
       simp [flt_cons, hookRaise, this] at hf
-  rw [hcur]
-  exact ⟨hb, hmust, fun f _ => Or.inl (raisedBy_any_of _ _ _ hrb), fun _ _ _ _ _ => Or.inl hrb,
-    fun h => ⟨hg h, Or.inr (Or.inr fun f _ => Or.inl (raisedBy_any_of _ _ _ hrb))⟩⟩
+    · refine ⟨hm1, ?_⟩
+      rcases hm2 with h | ⟨h1, h2⟩
+      · exact Or.inl h
+      · exact Or.inr ⟨h1, h2 r d (δ' ++ w.trace) (by simpa using et)⟩
+  refine ⟨?_, ?_⟩
+  · rw [hcur]
+    exact ⟨hb, hm'.1, fun f _ => Or.inl (raisedBy_any_of _ _ _ hrb), fun _ _ _ _ _ => Or.inl hrb,
+      fun h => ⟨hg h, Or.inr (Or.inr fun f _ => Or.inl (raisedBy_any_of _ _ _ hrb))⟩⟩
+  · intro ha
+    rcases hm'.2 with h | ⟨h1, h2⟩
+    · simp [h] at ha
+    · refine ⟨by rw [hcur]; simp [abortRaise, ha, h2], ?_⟩
+      have hrs : w'.rs.lastStop = w.rs.lastStop := by rw [h.rs]
+      rw [hrs]
+      exact h1
 
-/-- leaf procedures: the view does not move; a failure is a callback raising -/
+/-- leaves whose requests all go to hooks whose `Exception`s are swallowed: the view does not move; a
+    failure is a callback raising something that is not an `Exception` -/
 theorem leaf_spec {α : Type} {x : M α} (cfg : Cfg) (bx : Bool)
-    (hx : ∀ w0, ⦃fun w => ⌜FootQ (loopRx bx) w0 w⌝⦄ x ⦃fqPost (loopRx bx) w0⦄) (v : View)
+    (hx : ∀ w0, ⦃fun w => ⌜FootQ (loopRx bx) w0 w⌝⦄ x ⦃fqPost (loopRx bx) w0⦄)
+    (hnx : ⦃fun _ => ⌜True⌝⦄ x ⦃post⟨fun _ _ => ⌜True⌝, fun e _ => ⌜e.isException = false⌝⟩⦄) (v : View)
     (hr : bx = true → v.mon.refused = true)
     (hok : v.stopOk = true) (hb : v.mon.bad = false) (hg : GrantInv cfg v.mon) (hm : v.mon.mustOp = false) :
     ⦃fun w => ⌜view cfg w = v⌝⦄ x ⦃post⟨fun _ w => ⌜view cfg w = v⌝, fun e w => ⌜Exc cfg e w⌝⟩⦄ := by
   apply triple_of_run
   intro w hw
   have := adequacy (hx w) w (FootQ.refl (loopRx bx) w)
+  have hn := adequacy hnx w trivial
   subst hw
   split <;> simp_all
   · exact view_fq cfg bx _ _ this hok hr
-  · exact exc_of_fe cfg bx this hr hb hg (Or.inl hm)
+  · rename_i e w' _
+    refine exc_of_fe cfg bx this hr hb hg (Or.inr ⟨hm, Or.inl ?_⟩)
+    cases e <;> simp_all [Exn.isException, Exn.isAbort]
+
+/-- leaves that ask one callback whose `AbortRetryError` aborts the run -/
+theorem leaf_spec_ns {α : Type} {x : M α} (cfg : Cfg) (R : Req → Bool)
+    (hR : ∀ r, R r = true → loopRx false r = true ∧ abortKind r = true)
+    (hx : ∀ w0, ⦃fun w => ⌜FootQ R w0 w⌝⦄ x ⦃fqPost R w0⦄) (v : View)
+    (hs : v.stop = none) (hok : v.stopOk = true) (hb : v.mon.bad = false) (hg : GrantInv cfg v.mon)
+    (hm : v.mon.mustOp = false) :
+    ⦃fun w => ⌜view cfg w = v⌝⦄ x ⦃post⟨fun _ w => ⌜view cfg w = v⌝, fun e w => ⌜Exc cfg e w⌝⟩⦄ := by
+  apply triple_of_run
+  intro w hw
+  have := adequacy (hx w) w (FootQ.refl R w)
+  subst hw
+  split <;> simp_all
+  · exact view_fq cfg false _ _ (this.mono (fun r h => (hR r h).1)) hok (by simp)
+  · refine exc_of_fe cfg false (this.mono (fun r h => (hR r h).1)) (by simp) hb hg
+      (Or.inr ⟨hm, Or.inr ⟨Or.inl hs, ?_⟩⟩)
+    obtain ⟨δ, et, _, r, d, δ', hd, hr, _⟩ := this.trace
+    intro r' d' rest h'
+    rw [et, hd] at h'
+    have h1 := (Prod.mk.inj (List.cons.inj h').1).1
+    rw [← h1]
+    exact (hR r hr).2
 
 /-- requests of the attempt hooks -/
 def hookR : Req → Bool
@@ -336,7 +384,7 @@ theorem hook_spec {α : Type} {x : M α} (cfg : Cfg)
   subst hw
   split <;> simp_all
   · exact view_fq cfg false _ _ (this.mono hookR_loopR) hok (by simp)
-  · refine exc_of_fe cfg false (this.mono hookR_loopR) (by simp) hb hg (Or.inr ?_)
+  · refine exc_of_fe cfg false (this.mono hookR_loopR) (by simp) hb hg (Or.inl ?_)
     obtain ⟨δ, et, _, r, d, δ', hd, hr, _⟩ := this.trace
     intro r' d' rest h'
     rw [et, hd] at h'
@@ -349,17 +397,36 @@ theorem hook_spec {α : Type} {x : M α} (cfg : Cfg)
 theorem exc_of_raise (cfg : Cfg) {w' : World} {tr : List (Req × Ans)} {r : Req} {e : Exn} {d : Nat}
     (ht : w'.trace = (r, Ans.raise e d) :: tr) (hnop : isOp r = false)
     (hb : (cur cfg w'.trace).bad = false) (hg : GrantInv cfg (cur cfg w'.trace))
-    (hm : (cur cfg w'.trace).mustOp = false ∨ isAttemptHook r = true) : Exc cfg e w' := by
+    (hm : isAttemptHook r = true ∨
+          ((cur cfg w'.trace).mustOp = false ∧
+           (e.isAbort = true → (cur cfg w'.trace).sawAbort = true ∧
+              (w'.rs.lastStop = none ∨ w'.rs.lastStop = some .aborted)))) : Exc cfg e w' := by
   intro hf
   have hrb : raisedBy nonOp w'.trace e = true := by
     rw [ht]; exact raisedBy_head _ _ _ _ _ (by simp [nonOp, hnop])
-  have hmust : (cur cfg w'.trace).mustOp = false := by
+  have hm' : (cur cfg w'.trace).mustOp = false ∧
+      (e.isAbort = true → (cur cfg w'.trace).sawAbort = true ∧
+        (w'.rs.lastStop = none ∨ w'.rs.lastStop = some .aborted)) := by
     rcases hm with hm | hm
-    · exact hm
     · rw [ht] at hf
       simp [flt_cons, hookRaise, hm] at hf
-  exact ⟨hb, hmust, fun f _ => Or.inl (raisedBy_any_of _ _ _ hrb), fun _ _ _ _ _ => Or.inl hrb,
-    fun h => ⟨hg h, Or.inr (Or.inr fun f _ => Or.inl (raisedBy_any_of _ _ _ hrb))⟩⟩
+    · exact hm
+  exact ⟨⟨hb, hm'.1, fun f _ => Or.inl (raisedBy_any_of _ _ _ hrb), fun _ _ _ _ _ => Or.inl hrb,
+    fun h => ⟨hg h, Or.inr (Or.inr fun f _ => Or.inl (raisedBy_any_of _ _ _ hrb))⟩⟩, hm'.2⟩
+
+/-- `emit` fails only with something that is not an `Exception` -/
+theorem emit_nonexc (cfg : Cfg) (tl : Bool) (ev : Event) (a s : Nat) (k : Option EClass) (e : Option Exn)
+    (st : Option StopReason) (c : Option Cause) (cl : Option Classification) :
+    ⦃fun _ => ⌜True⌝⦄ emit cfg tl ev a s k e st c cl
+    ⦃post⟨fun _ _ => ⌜True⌝, fun e' _ => ⌜e'.isException = false⌝⟩⦄ := by
+  mvcgen [emit, metricHook, askMetric, askLog, ask, swallowException, recordTimeline]
+  all_goals simp_all
+
+theorem callBeforeSleep_nonexc (cfg : Cfg) (ctx : BackoffCtx) (s : Nat) :
+    ⦃fun _ => ⌜True⌝⦄ callBeforeSleep cfg ctx s
+    ⦃post⟨fun _ _ => ⌜True⌝, fun e' _ => ⌜e'.isException = false⌝⟩⦄ := by
+  mvcgen [callBeforeSleep, ask, swallowException]
+  all_goals simp_all
 
 /-! ### leaf procedures -/
 
@@ -369,6 +436,17 @@ abbrev leafPost (cfg : Cfg) (v : View) : PostCond α (.except Exn (.arg World .p
 /-- events of the loop other than `retry` (and `budget_exhausted`, unless the budget has refused) -/
 def plainEv (bx : Bool) (ev : Event) : Bool :=
   ev != .retry && !isBreakerEv ev && (bx || ev != .budgetExhausted)
+
+@[simp] theorem isAbort_of_not_exception (e : Exn) (h : e.isException = false) : e.isAbort = false := by
+  cases e <;> simp_all [Exn.isException, Exn.isAbort]
+
+/-- requests to an adaptive strategy's `record_failure` / `record_success` -/
+def recR : Req → Bool
+  | .stratRecordFailure .. | .stratRecordSuccess _ => true
+  | _ => false
+
+theorem recR_ok (r : Req) (h : recR r = true) : loopRx false r = true ∧ abortKind r = true := by
+  cases r <;> simp_all [recR, loopRx, loopR, abortKind]
 
 section leaves
 variable (cfg : Cfg) (tl : Bool) (v : View) (hok : v.stopOk = true) (hb : v.mon.bad = false)
@@ -381,22 +459,21 @@ theorem emit_v (hm : v.mon.mustOp = false) (ev : Event) (hev : plainEv v.mon.ref
     ⦃fun w => ⌜view cfg w = v⌝⦄ emit cfg tl ev a s k e st c cl ⦃leafPost cfg v⦄ :=
   leaf_spec cfg v.mon.refused (fun w0 => emit_fq (loopRx v.mon.refused) w0 cfg tl ev a s k e st c cl
     (fun _ => by cases ev <;> simp_all [loopRx, loopR, plainEv])
-    (fun _ _ => by cases ev <;> simp_all [loopRx, loopR, plainEv])) v id hok hb hg hm
+    (fun _ _ => by cases ev <;> simp_all [loopRx, loopR, plainEv]))
+    (emit_nonexc cfg tl ev a s k e st c cl) v id hok hb hg hm
 
 theorem callBeforeSleep_v (hm : v.mon.mustOp = false) (ctx : BackoffCtx) (s : Nat) :
     ⦃fun w => ⌜view cfg w = v⌝⦄ callBeforeSleep cfg ctx s ⦃leafPost cfg v⦄ :=
-  leaf_spec cfg false (fun w0 => callBeforeSleep_fq (loopRx false) w0 cfg ctx s (fun _ => rfl)) v (by simp)
-    hok hb hg hm
+  leaf_spec cfg false (fun w0 => callBeforeSleep_fq (loopRx false) w0 cfg ctx s (fun _ => rfl))
+    (callBeforeSleep_nonexc cfg ctx s) v (by simp) hok hb hg hm
 
-theorem stratRecordFailure_v (hm : v.mon.mustOp = false) (key : SKey) (k : EClass) :
+theorem stratRecordFailure_v (hs : v.stop = none) (hm : v.mon.mustOp = false) (key : SKey) (k : EClass) :
     ⦃fun w => ⌜view cfg w = v⌝⦄ stratRecordFailure cfg key k ⦃leafPost cfg v⦄ :=
-  leaf_spec cfg false (fun w0 => stratRecordFailure_fq (loopRx false) w0 cfg key k rfl) v (by simp)
-    hok hb hg hm
+  leaf_spec_ns cfg recR recR_ok (fun w0 => stratRecordFailure_fq recR w0 cfg key k rfl) v hs hok hb hg hm
 
-theorem handleSuccessAttemptEnd_v (hm : v.mon.mustOp = false) (a x : Nat) :
-    ⦃fun w => ⌜view cfg w = v⌝⦄ handleSuccessAttemptEnd cfg tl a x ⦃leafPost cfg v⦄ :=
-  leaf_spec cfg false (fun w0 => handleSuccessAttemptEnd_fq (loopRx false) w0 cfg tl a x
-    (fun _ => rfl) (fun _ _ => rfl) (fun _ => rfl) (fun _ => rfl)) v (by simp) hok hb hg hm
+theorem recordStrategySuccess_v (hs : v.stop = none) (hm : v.mon.mustOp = false) :
+    ⦃fun w => ⌜view cfg w = v⌝⦄ recordStrategySuccess cfg ⦃leafPost cfg v⦄ :=
+  leaf_spec_ns cfg recR recR_ok (fun w0 => recordStrategySuccess_fq recR w0 cfg (fun _ => rfl)) v hs hok hb hg hm
 
 theorem callAttemptStart_v (a : Nat) :
     ⦃fun w => ⌜view cfg w = v⌝⦄ callAttemptStart cfg a ⦃leafPost cfg v⦄ :=
@@ -407,6 +484,13 @@ theorem callAttemptEnd_v (a : Nat) (cls : Option Classification) (exc : Option E
     ⦃fun w => ⌜view cfg w = v⌝⦄ callAttemptEnd cfg a cls exc result d stop cause sleep ⦃leafPost cfg v⦄ :=
   hook_spec cfg (fun w0 => callAttemptEnd_fq hookR w0 cfg a cls exc result d stop cause sleep (fun _ => rfl))
     v hok hb hg
+
+theorem handleSuccessAttemptEnd_v (hs : v.stop = none) (hm : v.mon.mustOp = false) (a x : Nat) :
+    ⦃fun w => ⌜view cfg w = v⌝⦄ handleSuccessAttemptEnd cfg tl a x ⦃leafPost cfg v⦄ := by
+  have h1 := recordStrategySuccess_v cfg v hok hb hg hs hm
+  have h2 := emit_v cfg tl v hok hb hg hm .success (by simp [plainEv, isBreakerEv]) a 0 none none none none none
+  have h3 := callAttemptEnd_v cfg v hok hb hg a none none (some x) .success none none none
+  mvcgen [handleSuccessAttemptEnd, h1, h2, h3]
 
 theorem callAttemptEndFromOutcome_v (a : Nat) (o : AOutcome) :
     ⦃fun w => ⌜view cfg w = v⌝⦄ callAttemptEndFromOutcome cfg a o ⦃leafPost cfg v⦄ :=
@@ -424,28 +508,29 @@ end leaves
 @[simp] theorem view_mon (cfg : Cfg) (w : World) : (view cfg w).mon = cur cfg w.trace := rfl
 @[simp] theorem view_flt (cfg : Cfg) (w : World) : (view cfg w).flt = flt w.trace := rfl
 
-/-- the run ends with an exception that is neither an attempt failure nor a report of exhaustion -/
-theorem exc_plain (cfg : Cfg) {w' : World} {e : Exn} (hne : ∀ f, e ≠ .libExhausted f)
-    (hg : e.isException = false ∨ e.isAbort = true ∨ e.isExhausted = true)
-    (hb : (cur cfg w'.trace).bad = false) (hm : flt w'.trace = false → (cur cfg w'.trace).mustOp = false)
-    (hgr : GrantInv cfg (cur cfg w'.trace)) :
-    Exc cfg e w' := by
-  intro hf
-  refine ⟨hb, hm hf, fun f h => absurd h (hne f), fun _ _ h1 h2 h3 => ?_,
-    fun h => ⟨hgr h, Or.inr (Or.inr fun f h => absurd h (hne f))⟩⟩
-  rcases hg with h | h | h <;> simp_all
-
 /-- the library itself raises `e` (not a report of exhaustion) -/
 theorem exc_made (cfg : Cfg) {w' : World} {e : Exn} (hne : ∀ f, e ≠ .libExhausted f)
     (hb : (cur cfg w'.trace).bad = false) (hm : flt w'.trace = false → (cur cfg w'.trace).mustOp = false)
     (hgr : GrantInv cfg (cur cfg w'.trace))
     (hg : e.isException = false ∨ e.isAbort = true ∨ e.isExhausted = true ∨
-          (e = .libValueError ∧ (cur cfg w'.trace).sawOther = true)) :
+          (e = .libValueError ∧ (cur cfg w'.trace).sawOther = true))
+    (hab : e.isAbort = true → (cur cfg w'.trace).sawAbort = true ∧
+      (w'.rs.lastStop = none ∨ w'.rs.lastStop = some .aborted)) :
     Exc cfg e w' := by
   intro hf
-  refine ⟨hb, hm hf, fun f h => absurd h (hne f), fun _ _ h1 h2 h3 => ?_,
-    fun h => ⟨hgr h, Or.inr (Or.inr fun f h => absurd h (hne f))⟩⟩
+  refine ⟨⟨hb, hm hf, fun f h => absurd h (hne f), fun _ _ h1 h2 h3 => ?_,
+    fun h => ⟨hgr h, Or.inr (Or.inr fun f h => absurd h (hne f))⟩⟩, hab⟩
   rcases hg with h | h | h | h <;> simp_all
+
+/-- the run ends with an exception that is neither an attempt failure nor a report of exhaustion -/
+theorem exc_plain (cfg : Cfg) {w' : World} {e : Exn} (hne : ∀ f, e ≠ .libExhausted f)
+    (hg : e.isException = false ∨ e.isAbort = true ∨ e.isExhausted = true)
+    (hb : (cur cfg w'.trace).bad = false) (hm : flt w'.trace = false → (cur cfg w'.trace).mustOp = false)
+    (hgr : GrantInv cfg (cur cfg w'.trace))
+    (hab : e.isAbort = true → (cur cfg w'.trace).sawAbort = true ∧
+      (w'.rs.lastStop = none ∨ w'.rs.lastStop = some .aborted)) :
+    Exc cfg e w' :=
+  exc_made cfg hne hb hm hgr (by rcases hg with h | h | h <;> simp [h]) hab
 
 /-! #### phases of an attempt (predicates on the view) -/
 
@@ -615,7 +700,7 @@ theorem invokeOp_spec (cfg : Cfg) (n : Nat) (u : View) (hr : Rel cfg n u) (hn : 
 /-- goals `Exc cfg e W` for an explicit world `W` whose newest exchange is the failing one -/
 macro "c03_exc" : tactic => `(tactic| first
   | (refine exc_of_raise _ rfl rfl ?_ ?_ ?_ <;> c03_simp; done)
-  | (refine exc_plain _ (by simp) (by simp) ?_ ?_ ?_ <;> c03_simp; done))
+  | (refine exc_plain _ (by simp) (by simp) ?_ ?_ ?_ ?_ <;> c03_simp; done))
 
 macro "c03_done" : tactic => `(tactic| all_goals (
   (try subst_vars) <;>
@@ -753,7 +838,7 @@ theorem handleFailure2_spec (cfg : Cfg) (tl : Bool) (n : Nat) (u : View) (c : Cl
     ⦃post⟨fun d w => ⌜Decided cfg n d (view cfg w)⌝, fun e w => ⌜Exc cfg e w⌝⟩⦄ := by
   have he := fun v hok hb hg hm ev hev r =>
     emit_v cfg tl v hok hb hg hm ev hev n 0 (some c.klass) e (some r) (some cause) none
-  have h1 := fun v hok hb hg hm key => stratRecordFailure_v cfg v hok hb hg hm key c.klass
+  have h1 := fun v hok hb hg hs hm key => stratRecordFailure_v cfg v hok hb hg hs hm key c.klass
   have h2 := fun u hc hn hk hd hlt key kind rem =>
     grantRetry_spec cfg tl n u c hc hn hk hd hlt n cause e key kind rem
   mvcgen [handleFailure2, elapsed, modifyRS, stopWith, setStop, he, h1, h2]
@@ -885,7 +970,7 @@ theorem handleSleepDecision_spec (cfg : Cfg) (tl : Bool) (n : Nat) (u : View) (a
   all_goals (clear he ha)
   case other =>
     subst_vars
-    refine exc_made cfg (by simp) ?_ ?_ ?_ (Or.inr (Or.inr (Or.inr ⟨rfl, ?_⟩))) <;> c03_simp
+    refine exc_made cfg (by simp) ?_ ?_ ?_ (Or.inr (Or.inr (Or.inr ⟨rfl, ?_⟩))) (by simp) <;> c03_simp
   c03_chain
   c03_done
 
@@ -1218,7 +1303,7 @@ theorem callResultPath_spec (cfg : Cfg) (n : Nat) (u : View) (x : Nat) (hc : Cor
     (hk : CntOK u) (hcl : u.mon.classified = false) (hd : u.mon.done = !cfg.resultClassifier) :
     ⦃fun w => ⌜view cfg w = u⌝⦄ callResultPath cfg n x ⦃attemptPost cfg n⦄ := by
   have h1 := fun u hc hn hk hcl hd => shouldClassifyResult_spec cfg n u hc hn hk hcl hd x
-  have h2 := fun v hok hb hg hm => handleSuccessAttemptEnd_v cfg false v hok hb hg hm n x
+  have h2 := fun v hok hb hg hs hm => handleSuccessAttemptEnd_v cfg false v hok hb hg hs hm n x
   have h3 := fun u c hc hn hk hd => callResultFailure_spec cfg n u x c hc hn hk hd
   mvcgen [callResultPath, h1, h2, h3]
   all_goals (clear h1 h2 h3)
